@@ -43,6 +43,16 @@ def run(ctx):
     cfg = "AgentMC_quick.cfg" if ctx.quick() else "AgentMC_thorough.cfg"
     nids = 3 if ctx.quick() else 4
     r = ctx.tlc_model("AgentMC", cfg, workers=1, heap_gb=4, name="Agent exhaustive, %d ids" % nids)
+    # unbounded histories: the exactly-one-terminal-event accounting as an inductive invariant (Apalache)
+    obligations = []
+    for name, args in (("IndInit => IndInv", ["--cinit=CInit", "--init=Init", "--inv=IndInv", "--length=0"]),
+                       ("IndInv /\\ Next => IndInv'", ["--cinit=CInit", "--init=IndInit", "--inv=IndInv", "--length=1"])):
+        ok, out = ctx.apalache("AgentInd", args)
+        if not ok:
+            raise vlib.Inconclusive("Apalache did not discharge %s:\n%s" % (name, out[-1500:]))
+        obligations.append(name)
+    vlib.log("APALACHE AgentInd: %d inductive obligations discharged" % len(obligations))
+    ctx.extra["apalache_inductive_obligations"] = obligations
     edges = edges_from(r["out"])
     if not edges:
         raise vlib.Inconclusive("no edges exported by TLC")
